@@ -629,8 +629,8 @@ CHECKS["C01"].update({
              "(concrete-syntax views, WF, Matches). PROVED, lexer: lex_sound and lex_render (= lexAll_ok_iff: a text is accepted exactly when it is tiled "
              "by ignored runs and complete lexemes obeying maximal munch and the named look-ahead clauses, and the tokens returned are the tiling's; ALL "
              "token kinds), lex_ignored_invariant, lex_fuel_sufficient, render_total / index_to_loc_total_iff, the table-to-spec theorems; bytes: "
-             "decode_encode, parse_bytes_eq_text (parse(text.encode()) IS parse(text), all entry points and flags), decode_error_in_range, "
-             "parse_bytes_total. Parser: parse_sound_document, parse_complete_document, parseDocument_accepts_iff, matched_document_unique (all 8 flag "
+             "decode_encode, decode_ok_iff (the decoder accepts EXACTLY the encodings of texts of scalar values), parse_bytes_eq_text (parse(text.encode()) "
+             "IS parse(text), all entry points and flags), parse_bytes_accepts_iff, decode_error_in_range, parse_bytes_total. Parser: parse_sound_document, parse_complete_document, parseDocument_accepts_iff, matched_document_unique (all 8 flag "
              "combinations; parseValue_* / parseType_* for the other two entry points). TEXT level: parse_text_accepts_iff / parse_text_result, "
              "parse_value_text_result, parse_type_text_result. ERROR CLAUSE: parse_error_in_range, parse_text_error_in_range_partial, "
              "parse_text_render_total, and the EXACT class of the one excluded case (L6), stated on the text with the lexical specification only: "
